@@ -195,9 +195,22 @@ var c09 = Check[planCase]{
 	},
 }
 
-func init() { c09.register() }
+// forward-wide: the targeted wide-merge generator of C06 (cardinalities on and around
+// multiples of 1024), decoded by the independent reader.
+var c09wide = Check[planCase]{
+	Property: "C09", Stage: "forward-wide",
+	Gen: genWideMergeCase, Run: runLayoutCase,
+	Classify: func(c planCase) (bool, []string) { return c06wide.Classify(c) },
+}
+
+func init() {
+	c09.register()
+	c09wide.register()
+}
 
 func TestC09(t *testing.T) { c09.Rapid(t) }
+
+func TestC09Wide(t *testing.T) { c09wide.Rapid(t) }
 
 // ---------------------------------------------------------------------------
 // frozen corpus (backward half)
